@@ -1,4 +1,5 @@
 """Obligation runner: verdicts, known findings, evidence, exit codes (DESIGN.md section 2.5)."""
+import re as _re
 import json
 import os
 import sys
@@ -99,12 +100,65 @@ def finding_sig(detail):
     return _canon(detail)
 
 
-def run_one(ob):
+def _parse_dim(text):
+    import re
+    from .dim import Dim
+    ns = {n: Dim.sym(n) for n in set(re.findall(r"[A-Za-z_][A-Za-z_0-9]*", text))}
+    return eval(text, {"__builtins__": {}}, ns)
+
+
+def _feasible(facts):
+    """Is there an assignment of positive integers to the size symbols that satisfies every fact?  (brute force over 1..4;
+    anything that cannot be evaluated counts as feasible: an unexplored side of a branch would be a missed violation)"""
+    import itertools
+    from .dim import D
+    try:
+        cons = [(k[0], _parse_dim(k[1]), _parse_dim(k[2]), v) for k, v in facts.items() if k[0] in ("lt", "le", "eq")]
+    except Exception:
+        return True
+    syms = sorted(set().union(*[a.symbols() | b.symbols() for _, a, b, _ in cons])) if cons else []
+    if len(syms) > 6:
+        return True
+    for vals in itertools.product((1, 2, 3, 4), repeat=len(syms)):
+        m = {sy: D(v) for sy, v in zip(syms, vals)}
+        ok = True
+        for kind, a, b, v in cons:
+            try:
+                x, y = a.subs(m).value(), b.subs(m).value()
+            except Exception:
+                return True
+            holds = (x < y) if kind == "lt" else (x <= y) if kind == "le" else (x == y)
+            if holds != bool(v):
+                ok = False
+                break
+        if ok:
+            return True
+    return False
+
+
+def _implied(key, val):
+    kind, a, b = key
+    if kind == "lt":
+        return ({("lt", a, b): True, ("le", a, b): True, ("le", b, a): False, ("lt", b, a): False}, (a, b)) if val else \
+               ({("lt", a, b): False, ("le", b, a): True}, (b, a))
+    return ({("le", a, b): True, ("lt", b, a): False}, (a, b)) if val else \
+           ({("le", a, b): False, ("lt", b, a): True, ("le", b, a): True, ("lt", a, b): False}, (b, a))
+
+
+_RANK = {REFUTED: 3, ERROR: 2, UNDECIDED: 1, PROVED: 0}
+
+
+def run_one(ob, _extra=None, _le=(), _depth=0):
     """returns dict(key, verdict, rule, anchor, detail, sig, wall_s, funcs)"""
     t0 = time.time()
     nf.reset()
     from . import interp as _interp
-    _interp.ALL_CALLS.clear()
+    if _depth == 0:
+        _interp.ALL_CALLS.clear()
+    _interp.EXTRA_FACTS.clear()
+    _interp.EXTRA_FACTS.update(_extra or {})
+    for pair in _le:
+        nf.ST.le_facts.add(pair)
     out = dict(key=ob.key, rule=ob.rule, anchor=ob.anchor, claimed=ob.claimed, group=ob.group)
     try:
         r = ob.fn()
@@ -142,6 +196,39 @@ def run_one(ob):
             out["construct"] = e.construct
         out["detail"] = dict(kind="rule", message=e.what, more=e.detail)
         out["sig"] = finding_sig(e.sigdata) if getattr(e, "sigdata", None) is not None else _sig(f"rule|{e.what}")
+    except _interp.UnknownBranch as e:
+        # a branch on sizes the context leaves open: decide the obligation under each feasible outcome (at most 3 nested
+        # branches); the worst verdict counts, a refutation names the assumed outcome
+        out["verdict"] = UNDECIDED
+        out["detail"] = str(e)
+        if _depth < 3:
+            subs = []
+            for val in (True, False):
+                imp, le = _implied(e.key, val)
+                facts = dict(e.facts)
+                facts.update(_extra or {})
+                facts.update(imp)
+                if not _feasible(facts):
+                    continue
+                ex = dict(_extra or {})
+                ex.update(imp)
+                sub = run_one(ob, ex, tuple(_le) + (le,), _depth + 1)
+                if sub["verdict"] == REFUTED and _re.search(r"\b(Inv|GInv|LnDet|Chol)\w*#\d+", json.dumps(sub.get("detail"), default=str)):
+                    # the side of the branch that today's contexts never took differs from the reference by terms that contain
+                    # inverses / log-determinants of composite expressions: a differently factored expression (Woodbury-type
+                    # identities are outside the theory, DESIGN 12) cannot be told from a wrong one -> not decided
+                    sub["verdict"] = UNDECIDED
+                    sub["detail"] = (f"{e}: under the assumed outcome the result differs from the reference by terms with inverses / log-determinants "
+                                     f"of composite expressions (differently factored expression; Woodbury-type identities are outside the theory)")
+                    sub.pop("sig", None)
+                sub["assumed"] = sub.get("assumed", []) + [f"{e.key[1]} {'<' if e.key[0] == 'lt' else '<='} {e.key[2]} is {val}"]
+                subs.append(sub)
+            _interp.EXTRA_FACTS.clear()
+            if subs:
+                worst = max(subs, key=lambda r: _RANK[r["verdict"]])
+                worst["forked_on"] = str(e)
+                worst["wall_s"] = round(time.time() - t0, 3)
+                return worst
     except Undecided as e:
         out["verdict"] = UNDECIDED
         out["detail"] = str(e)
